@@ -110,14 +110,18 @@ class MarkerExpression(SingleMarker):
                 return None
             pkg_spec = next(iter(specifier.to_specifierset()))
             pkg_version = pkg_spec.version
+            # Padding zeros changes the meaning of "~=" and wildcard versions
+            pad_zeros = pkg_spec.operator != "~=" and "*" not in pkg_version
             if (
-                dot_num := pkg_version.count(".")
-            ) < 2 and name == "python_full_version":
+                (dot_num := pkg_version.count(".")) < 2
+                and name == "python_full_version"
+                and pad_zeros
+            ):
                 for _ in range(2 - dot_num):
                     pkg_version += ".0"
-            return MarkerExpression(
-                name, pkg_spec.operator, pkg_version, _specifier=specifier
-            )
+            # The specifier is derived from the final text on demand, so that it
+            # always agrees with what the expression says.
+            return MarkerExpression(name, pkg_spec.operator, pkg_version)
         assert isinstance(specifier, GenericSpecifier)
         return MarkerExpression(
             name, specifier.op, specifier.value, _specifier=specifier
